@@ -1,11 +1,12 @@
 import JediModel.Lemmas.Tree
 import JediModel.Model.Names
+import JediModel.Model.ParsoPos
 import JediModel.Gen.C17
 /-! C17 — every reported position is faithful to the text.  The API's `line` / `column` are
 the `start_pos` of the parso leaf of the name (`Gen.C17.positionSource`); parso's `start_pos`
 law is `Model/Tree.positions`; the buffer's lines are `Model/Text.splitLines`. -/
 namespace JediModel.Props.C17
-open JediModel.Text JediModel.Tree JediModel.Names JediModel.ApiHelpers
+open JediModel.Text JediModel.Tree JediModel.Names JediModel.ApiHelpers JediModel.ParsoPos
 
 /-- `''.join(split_lines(s, keepends=True)) == s`: the lines partition the text -/
 theorem join_split_lines (s : Str) : (splitLines s).flatten = s := join_splitLines s
@@ -44,6 +45,31 @@ theorem leaf_at_position (t : T) (h : CRLFSafe t) :
   rw [this] at h1
   cases h1
   exact ⟨_, h3⟩
+
+/- FULL (false, see `bom_counter_witness`): for every tree and every `(leaf, position)` that
+   *parso* reports (`parsoPositions`), the text of the buffer at that position begins with the
+   leaf's value:
+     ∀ t, CRLFSafe t → ∀ lp ∈ parsoPositions t, ∃ rest,
+       textFrom (splitLines (code t)) lp.2 = some (lp.1.value ++ rest)
+   It fails when the buffer begins with U+FEFF: parso keeps the mark in the text but does not
+   count it in the columns of line 1.  Reproduced on the real code
+   (`Script('\ufeffabc = 1').get_names()[0]` has column 0 while `get_line_code()[0:3]` is
+   `'\ufeffab'`): known finding C17-bom-line1-columns. -/
+
+/-- **leaf_at_position_partial**: parso's positions are faithful for every buffer that does not
+begin with a byte order mark. -/
+theorem leaf_at_position_partial (t : T) (h : CRLFSafe t) (hb : startsWithBom (code t) = false) :
+    ∀ lp ∈ parsoPositions t, ∃ rest, textFrom (splitLines (code t)) lp.2 = some (lp.1.value ++ rest) := by
+  unfold parsoPositions
+  simp only [hb, Bool.false_eq_true, if_false]
+  exact leaf_at_position t h
+
+/-- kernel-checked counter-witness for the FULL statement: `\ufeffab` -/
+theorem bom_counter_witness :
+    let t := T.node 0 "file_input" [T.leaf 1 "name" [bom] ['a', 'b'], T.leaf 2 "endmarker" [] []]
+    CRLFSafe t ∧ parsoPositions t = [(⟨1, "name", [bom], ['a', 'b']⟩, ⟨1, 0⟩), (⟨2, "endmarker", [], []⟩, ⟨1, 2⟩)] ∧
+    textFrom (splitLines (code t)) ⟨1, 0⟩ = some [bom, 'a', 'b'] := by
+  decide
 
 /-- the positions list has one entry per leaf, in leaf order -/
 theorem positions_are_the_leaves (t : T) : (positions t).map (·.1) = leaves t :=
